@@ -154,5 +154,246 @@ theorem varM_post (s : Nat) (env : Env) (h : Inv env) : Post env (varM s env) (B
   refine ⟨p3.inv, (p1.ext.trans p2.ext).trans p3.ext, p3.good, ?_⟩
   rw [p3.erase, p1.erase, p2.erase]; rfl
 
+
+theorem mk_of_two {env : Env} {m1 m2 : M PBDD} {pa pb : BDD} {v : Nat}
+    (h1 : ∀ e, Inv e → Ext env e → Post e (m1 e) pa)
+    (h2 : ∀ e, Inv e → Ext env e → Post e (m2 e) pb) (h : Inv env) :
+    Post env (mkChoiceM (m1 env).1 v (m2 (m1 env).2).1 (m2 (m1 env).2).2) (BDD.mk pa v pb) := by
+  have p1 := h1 env h (Ext.refl _)
+  have p2 := h2 (m1 env).2 p1.inv p1.ext
+  have p3 := mkChoiceM_post (m1 env).1 v (m2 (m1 env).2).1 _ p2.inv (p2.good_of_ext p1.good) p2.good
+  exact ⟨p3.inv, (p1.ext.trans p2.ext).trans p3.ext, p3.good, by rw [p3.erase, p1.erase, p2.erase]⟩
+
+theorem andM_post (a b : PBDD) : ∀ env, Inv env → Good env.table a → Good env.table b →
+    Post env (andM a b env) (BDD.and a.erase b.erase) := by
+  fun_induction andM a b
+  all_goals intro env h ha hb
+  · simpa [PBDD.erase] using mkConstM_post false env h
+  · simpa [PBDD.erase] using mkConstM_post false env h
+  · exact ⟨h, Ext.refl _, hb, by simp [PBDD.erase]⟩
+  · exact ⟨h, Ext.refl _, ha, by simp [PBDD.erase]⟩
+  · rename_i pa at_ va af pb bt vb bf ih6 ih5 ih4 ih3 ih2 ih1
+    dsimp only
+    by_cases h1 : va < vb
+    · simp only [h1, if_true]
+      have := mk_of_two (env := env) (v := va)
+        (m1 := andM at_ (.node pb bt vb bf)) (m2 := andM af (.node pb bt vb bf))
+        (fun e he hx => ih6 e he (Good.ext hx ha.left) (Good.ext hx hb))
+        (fun e he hx => ih5 e he (Good.ext hx ha.right) (Good.ext hx hb)) h
+      rw [show (PBDD.node pa at_ va af).erase = BDD.node at_.erase va af.erase from rfl,
+          show (PBDD.node pb bt vb bf).erase = BDD.node bt.erase vb bf.erase from rfl, BDD.and]
+      simpa [h1, PBDD.erase] using this
+    · by_cases h2 : vb < va
+      · simp only [h1, h2, if_true, if_false]
+        have := mk_of_two (env := env) (v := vb)
+          (m1 := andM bt (.node pa at_ va af)) (m2 := andM bf (.node pa at_ va af))
+          (fun e he hx => ih4 e he (Good.ext hx hb.left) (Good.ext hx ha))
+          (fun e he hx => ih3 e he (Good.ext hx hb.right) (Good.ext hx ha)) h
+        rw [show (PBDD.node pa at_ va af).erase = BDD.node at_.erase va af.erase from rfl,
+            show (PBDD.node pb bt vb bf).erase = BDD.node bt.erase vb bf.erase from rfl, BDD.and]
+        simpa [h1, h2, PBDD.erase] using this
+      · simp only [h1, h2, if_false]
+        have := mk_of_two (env := env) (v := va)
+          (m1 := andM at_ bt) (m2 := andM af bf)
+          (fun e he hx => ih2 e he (Good.ext hx ha.left) (Good.ext hx hb.left))
+          (fun e he hx => ih1 e he (Good.ext hx ha.right) (Good.ext hx hb.right)) h
+        rw [show (PBDD.node pa at_ va af).erase = BDD.node at_.erase va af.erase from rfl,
+            show (PBDD.node pb bt vb bf).erase = BDD.node bt.erase vb bf.erase from rfl, BDD.and]
+        simpa [h1, h2, PBDD.erase] using this
+
+theorem orM_post (a b : PBDD) : ∀ env, Inv env → Good env.table a → Good env.table b →
+    Post env (orM a b env) (BDD.or a.erase b.erase) := by
+  fun_induction orM a b
+  all_goals intro env h ha hb
+  · simpa [PBDD.erase] using mkConstM_post true env h
+  · simpa [PBDD.erase] using mkConstM_post true env h
+  · exact ⟨h, Ext.refl _, hb, by simp [PBDD.erase]⟩
+  · exact ⟨h, Ext.refl _, ha, by simp [PBDD.erase]⟩
+  · rename_i pa at_ va af pb bt vb bf ih6 ih5 ih4 ih3 ih2 ih1
+    dsimp only
+    by_cases h1 : va < vb
+    · simp only [h1, if_true]
+      have := mk_of_two (env := env) (v := va)
+        (m1 := orM at_ (.node pb bt vb bf)) (m2 := orM af (.node pb bt vb bf))
+        (fun e he hx => ih6 e he (Good.ext hx ha.left) (Good.ext hx hb))
+        (fun e he hx => ih5 e he (Good.ext hx ha.right) (Good.ext hx hb)) h
+      rw [show (PBDD.node pa at_ va af).erase = BDD.node at_.erase va af.erase from rfl,
+          show (PBDD.node pb bt vb bf).erase = BDD.node bt.erase vb bf.erase from rfl, BDD.or]
+      simpa [h1, PBDD.erase] using this
+    · by_cases h2 : vb < va
+      · simp only [h1, h2, if_true, if_false]
+        have := mk_of_two (env := env) (v := vb)
+          (m1 := orM bt (.node pa at_ va af)) (m2 := orM bf (.node pa at_ va af))
+          (fun e he hx => ih4 e he (Good.ext hx hb.left) (Good.ext hx ha))
+          (fun e he hx => ih3 e he (Good.ext hx hb.right) (Good.ext hx ha)) h
+        rw [show (PBDD.node pa at_ va af).erase = BDD.node at_.erase va af.erase from rfl,
+            show (PBDD.node pb bt vb bf).erase = BDD.node bt.erase vb bf.erase from rfl, BDD.or]
+        simpa [h1, h2, PBDD.erase] using this
+      · simp only [h1, h2, if_false]
+        have := mk_of_two (env := env) (v := va)
+          (m1 := orM at_ bt) (m2 := orM af bf)
+          (fun e he hx => ih2 e he (Good.ext hx ha.left) (Good.ext hx hb.left))
+          (fun e he hx => ih1 e he (Good.ext hx ha.right) (Good.ext hx hb.right)) h
+        rw [show (PBDD.node pa at_ va af).erase = BDD.node at_.erase va af.erase from rfl,
+            show (PBDD.node pb bt vb bf).erase = BDD.node bt.erase vb bf.erase from rfl, BDD.or]
+        simpa [h1, h2, PBDD.erase] using this
+
+theorem notM_post (a : PBDD) : ∀ env, Inv env → Good env.table a →
+    Post env (notM a env) (BDD.not a.erase) := by
+  induction a with
+  | F p => intro env h _; simpa [notM, PBDD.erase, BDD.not] using mkConstM_post true env h
+  | T p => intro env h _; simpa [notM, PBDD.erase, BDD.not] using mkConstM_post false env h
+  | node p t v f iht ihf =>
+    intro env h ha
+    have := mk_of_two (env := env) (v := v) (m1 := notM t) (m2 := notM f)
+      (fun e he hx => iht e he (Good.ext hx ha.left))
+      (fun e he hx => ihf e he (Good.ext hx ha.right)) h
+    simpa [notM, PBDD.erase, BDD.not] using this
+
+/-- sequencing of two operations whose second uses the first's result -/
+theorem Post.seq {env : Env} {r1 : PBDD × Env} {p1 p2 : BDD} {r2 : PBDD × Env}
+    (h1 : Post env r1 p1) (h2 : Post r1.2 r2 p2) : Post env r2 p2 :=
+  ⟨h2.inv, h1.ext.trans h2.ext, h2.good, h2.erase⟩
+
+theorem impliesM_post (a b : PBDD) (env : Env) (h : Inv env) (ha : Good env.table a)
+    (hb : Good env.table b) : Post env (impliesM a b env) (BDD.implies a.erase b.erase) := by
+  unfold impliesM
+  have p1 := notM_post a env h ha
+  have p2 := orM_post (notM a env).1 b _ p1.inv p1.good (p1.good_of_ext hb)
+  refine Post.seq p1 ?_
+  simpa [BDD.implies, p1.erase] using p2
+
+theorem iteM_post (a b c : PBDD) (env : Env) (h : Inv env) (ha : Good env.table a)
+    (hb : Good env.table b) (hc : Good env.table c) :
+    Post env (iteM a b c env) (BDD.ite a.erase b.erase c.erase) := by
+  unfold iteM
+  have p1 := impliesM_post a b env h ha hb
+  have p2 := notM_post a _ p1.inv (p1.good_of_ext ha)
+  have p3 := impliesM_post (notM a (impliesM a b env).2).1 c _ p2.inv p2.good
+    (p2.good_of_ext (p1.good_of_ext hc))
+  have p4 := andM_post (impliesM a b env).1 (impliesM (notM a (impliesM a b env).2).1 c (notM a (impliesM a b env).2).2).1 _
+    p3.inv (p3.good_of_ext (p2.good_of_ext p1.good)) p3.good
+  refine Post.seq p1 (Post.seq p2 (Post.seq p3 ?_))
+  simpa [BDD.ite, p1.erase, p2.erase, p3.erase] using p4
+
+theorem eqM_post (a b : PBDD) (env : Env) (h : Inv env) (ha : Good env.table a)
+    (hb : Good env.table b) : Post env (eqM a b env) (BDD.eq a.erase b.erase) := by
+  unfold eqM
+  have p1 := impliesM_post a b env h ha hb
+  have p2 := impliesM_post b a _ p1.inv (p1.good_of_ext hb) (p1.good_of_ext ha)
+  have p3 := andM_post (impliesM a b env).1 (impliesM b a (impliesM a b env).2).1 _ p2.inv
+    (p2.good_of_ext p1.good) p2.good
+  refine Post.seq p1 (Post.seq p2 ?_)
+  simpa [BDD.eq, p1.erase, p2.erase] using p3
+
+theorem xorM_post (a b : PBDD) (env : Env) (h : Inv env) (ha : Good env.table a)
+    (hb : Good env.table b) : Post env (xorM a b env) (BDD.xor a.erase b.erase) := by
+  unfold xorM
+  have p1 := notM_post a env h ha
+  have p2 := andM_post (notM a env).1 b _ p1.inv p1.good (p1.good_of_ext hb)
+  have p3 := notM_post b _ p2.inv (p2.good_of_ext (p1.good_of_ext hb))
+  have p4 := andM_post a (notM b (andM (notM a env).1 b (notM a env).2).2).1 _ p3.inv
+    (p3.good_of_ext (p2.good_of_ext (p1.good_of_ext ha))) p3.good
+  have p5 := orM_post (andM (notM a env).1 b (notM a env).2).1
+    (andM a (notM b (andM (notM a env).1 b (notM a env).2).2).1 (notM b (andM (notM a env).1 b (notM a env).2).2).2).1 _
+    p4.inv (p4.good_of_ext (p3.good_of_ext p2.good)) p4.good
+  refine Post.seq p1 (Post.seq p2 (Post.seq p3 (Post.seq p4 ?_)))
+  simpa [BDD.xor, p1.erase, p2.erase, p3.erase, p4.erase] using p5
+
+theorem norM_post (a b : PBDD) (env : Env) (h : Inv env) (ha : Good env.table a)
+    (hb : Good env.table b) : Post env (norM a b env) (BDD.nor a.erase b.erase) := by
+  unfold norM
+  have p1 := notM_post a env h ha
+  have p2 := notM_post b _ p1.inv (p1.good_of_ext hb)
+  have p3 := andM_post (notM a env).1 (notM b (notM a env).2).1 _ p2.inv (p2.good_of_ext p1.good) p2.good
+  refine Post.seq p1 (Post.seq p2 ?_)
+  simpa [BDD.nor, p1.erase, p2.erase] using p3
+
+theorem nandM_post (a b : PBDD) (env : Env) (h : Inv env) (ha : Good env.table a)
+    (hb : Good env.table b) : Post env (nandM a b env) (BDD.nand a.erase b.erase) := by
+  unfold nandM
+  have p1 := andM_post a b env h ha hb
+  have p2 := notM_post (andM a b env).1 _ p1.inv p1.good
+  refine Post.seq p1 ?_
+  simpa [BDD.nand, p1.erase] using p2
+
+theorem cmpCountM_post (cmp : Int → Bool) (bs : List PBDD) : ∀ (n : Int) (env : Env), Inv env →
+    (∀ b ∈ bs, Good env.table b) →
+    Post env (cmpCountM cmp bs n env) (BDD.cmpCount cmp (bs.map PBDD.erase) n) := by
+  induction bs with
+  | nil => intro n env h _; simpa [cmpCountM, BDD.cmpCount] using mkConstM_post (cmp n) env h
+  | cons b bs ih =>
+    intro n env h hg
+    simp only [cmpCountM]
+    have hbs : ∀ e, Ext env e → ∀ x ∈ bs, Good e.table x := fun e hx x hm => Good.ext hx (hg x (by simp [hm]))
+    have p1 := ih (n - 1) env h (hbs env (Ext.refl _))
+    have p2 := ih n _ p1.inv (hbs _ p1.ext)
+    have p3 := iteM_post b (cmpCountM cmp bs (n - 1) env).1 (cmpCountM cmp bs n (cmpCountM cmp bs (n - 1) env).2).1 _
+      p2.inv (p2.good_of_ext (p1.good_of_ext (hg b (by simp)))) (p2.good_of_ext p1.good) p2.good
+    refine Post.seq p1 (Post.seq p2 ?_)
+    simpa [BDD.cmpCount, p1.erase, p2.erase] using p3
+
+theorem cmpCountCompareM_post {cmpM : List PBDD → Int → M PBDD} {cmp : List BDD → Int → BDD}
+    (bs : List PBDD)
+    (hcmp : ∀ (n : Int) (env : Env), Inv env → (∀ b ∈ bs, Good env.table b) →
+      Post env (cmpM bs n env) (cmp (bs.map PBDD.erase) n))
+    (as : List PBDD) : ∀ (n : Int) (env : Env), Inv env →
+    (∀ a ∈ as, Good env.table a) → (∀ b ∈ bs, Good env.table b) →
+    Post env (cmpCountCompareM cmpM as bs n env)
+      (BDD.cmpCountCompare cmp (as.map PBDD.erase) (bs.map PBDD.erase) n) := by
+  induction as with
+  | nil => intro n env h _ hb; simpa [cmpCountCompareM, BDD.cmpCountCompare] using hcmp n env h hb
+  | cons a as ih =>
+    intro n env h ha hb
+    simp only [cmpCountCompareM]
+    have has : ∀ e, Ext env e → ∀ x ∈ as, Good e.table x := fun e hx x hm => Good.ext hx (ha x (by simp [hm]))
+    have hbs : ∀ e, Ext env e → ∀ x ∈ bs, Good e.table x := fun e hx x hm => Good.ext hx (hb x hm)
+    have p1 := ih (n + 1) env h (has env (Ext.refl _)) hb
+    have p2 := ih n _ p1.inv (has _ p1.ext) (hbs _ p1.ext)
+    have p3 := iteM_post a (cmpCountCompareM cmpM as bs (n + 1) env).1
+      (cmpCountCompareM cmpM as bs n (cmpCountCompareM cmpM as bs (n + 1) env).2).1 _
+      p2.inv (p2.good_of_ext (p1.good_of_ext (ha a (by simp)))) (p2.good_of_ext p1.good) p2.good
+    refine Post.seq p1 (Post.seq p2 ?_)
+    simpa [BDD.cmpCountCompare, p1.erase, p2.erase] using p3
+
+theorem existsImplM_post (s : Nat) (a : PBDD) : ∀ env, Inv env → Good env.table a →
+    Post env (existsImplM s a env) (BDD.existsImpl s a.erase) := by
+  induction a with
+  | F p => intro env h ha; exact ⟨h, Ext.refl _, ha, rfl⟩
+  | T p => intro env h ha; exact ⟨h, Ext.refl _, ha, rfl⟩
+  | node p t v f iht ihf =>
+    intro env h ha
+    simp only [existsImplM]
+    by_cases hv : v = s
+    · simp only [hv, if_true]
+      have := orM_post t f env h ha.left ha.right
+      simpa [PBDD.erase, BDD.existsImpl, hv] using this
+    · simp only [hv, if_false]
+      have := mk_of_two (env := env) (v := v) (m1 := existsImplM s t) (m2 := existsImplM s f)
+        (fun e he hx => iht e he (Good.ext hx ha.left))
+        (fun e he hx => ihf e he (Good.ext hx ha.right)) h
+      simpa [PBDD.erase, BDD.existsImpl, hv] using this
+
+theorem existsM_post (ss : List Nat) (a : PBDD) : ∀ env, Inv env → Good env.table a →
+    Post env (existsM ss a env) (BDD.exists_ ss a.erase) := by
+  induction ss with
+  | nil => intro env h ha; exact ⟨h, Ext.refl _, ha, rfl⟩
+  | cons s ss ih =>
+    intro env h ha
+    simp only [existsM]
+    have p1 := ih env h ha
+    have p2 := existsImplM_post s (existsM ss a env).1 _ p1.inv p1.good
+    refine Post.seq p1 ?_
+    simpa [BDD.exists_, p1.erase] using p2
+
+theorem allM_post (ss : List Nat) (a : PBDD) (env : Env) (h : Inv env) (ha : Good env.table a) :
+    Post env (allM ss a env) (BDD.all ss a.erase) := by
+  unfold allM
+  have p1 := notM_post a env h ha
+  have p2 := existsM_post ss (notM a env).1 _ p1.inv p1.good
+  have p3 := notM_post (existsM ss (notM a env).1 (notM a env).2).1 _ p2.inv p2.good
+  refine Post.seq p1 (Post.seq p2 ?_)
+  simpa [BDD.all, p1.erase, p2.erase] using p3
+
 end Env
 end Rsbdd
